@@ -207,6 +207,8 @@ def setup():
 
 # ----------------------------------------------------------------------------------------- harness
 NSITES = 3
+_GAINS = [[(500, 250)] * NSITES]
+WMAT = np.array([[1.0, 0.5, 0.0], [0.25, 1.0, 0.0], [0.0, 0.125, 1.0]])      # a non-diagonal whitening matrix (binary fractions: exact)
 
 
 def _mk(ctx, max_batches, ns_min):
@@ -215,7 +217,7 @@ def _mk(ctx, max_batches, ns_min):
     nc = NSITES + 1
     T = core._as_real(ns) / 30000
     sites = [(0, i % 2, i // 2) for i in range(NSITES)]
-    txt = sglx.imec_meta_text("3B2", sites, gains=[(500, 250)] * NSITES, ns=sglx.S(T), fs_hz="30000", file_size=sglx.S(ns * nc * 2))
+    txt = sglx.imec_meta_text("3B2", sites, gains=_GAINS[0], ns=sglx.S(T), fs_hz="30000", file_size=sglx.S(ns * nc * 2))
     F = fakefs.install(fakefs.FakeFS())
     F.add("/d/x.imec0.ap.meta", True, len(txt), [{"pos": 0, "text": txt}])
     F.add("/d/x.imec0.ap.bin", True, ns * nc * 2, np2env.raw_array(ns, nc))
@@ -271,15 +273,22 @@ def _expected_row(ctx, sr, h, ns, r, reject, labels, k_filter, out_dtype=np.int1
             xv[inside, :] = spatial(xv[inside, :])
         else:
             xv = spatial(xv)
+        if isinstance(wrot, np.ndarray):
+            # whitening matrix: applied to the NORMALISED samples (volts divided by each channel's own volts-per-bit)
+            norm = [xv[k, r - fb] * mute[r - fb] * float(intnorm[k]) for k in range(ncv)]
+            vals[name] = [arrays.cast_scalar(sum(norm[k] * float(wrot[k, c]) for k in range(ncv) if wrot[k, c] != 0), out_dtype) for c in range(ncv)]
+            continue
         vals[name] = [arrays.cast_scalar(xv[c, r - fb] * mute[r - fb] * float(intnorm[c]) * (1 if wrot is None else wrot), out_dtype) for c in range(ncv)]
     out = [ite(core.eq(b, L), vals["last"][c], vals["mid"][c]) for c in range(ncv)]
     out.append(np2env.raw_elem(r, ncv))       # sync column: the raw word, bit for bit
     return out, b, L
 
 
-def case_destripe(ctx, nproc, order, ns2add, reject, k_filter, max_batches, ns_min, append=False, stale=False, out_float32=False, wrot_scalar=False):
+def case_destripe(ctx, nproc, order, ns2add, reject, k_filter, max_batches, ns_min, append=False, stale=False, out_float32=False, wrot_scalar=False, wrot_matrix=False):
     import ibldsp.voltage as v
     import spikeglx
+    # with a whitening matrix: channels with different gains (legal in an NP1 imro table), so that the order normalise / whiten matters
+    _GAINS[0] = [(500, 250), (250, 125), (1000, 500)][:NSITES] if wrot_matrix else [(500, 250)] * NSITES
     F, ns, nc = _mk(ctx, max_batches, ns_min)
     old_rows, old_b, fo = _old_output(ctx, F, nc) if (append or stale) else (0, 0, None)
     if stale:
@@ -289,10 +298,10 @@ def case_destripe(ctx, nproc, order, ns2add, reject, k_filter, max_batches, ns_m
     labels = np.array([0.0, 3.0, 0.0]) if reject else None
     _LABELS[0] = labels
     nb_iter = [0]
-    wrot = ctx.real("wrot", Fraction(1, 2), 2) if wrot_scalar else None        # the documented scalar form of the whitening argument: an amplitude factor on the electrode channels
+    wrot = WMAT.copy() if wrot_matrix else ctx.real("wrot", Fraction(1, 2), 2) if wrot_scalar else None        # the documented scalar form of the whitening argument: an amplitude factor on the electrode channels
     res = ctx.call("destripe", v.decompress_destripe_cbin, FakePath("/d/x.imec0.ap.bin"), output_file=FakePath("/out/x.bin"), nbatch=NB, nprocesses=nproc,
                    ns2add=ns2add, reject_channels=reject, k_filter=k_filter, compute_rms=True, append=append, **({"dtype": np.float32} if out_float32 else {}),
-                   **({"wrot": wrot} if wrot_scalar else {}))
+                   **({"wrot": wrot} if (wrot_scalar or wrot_matrix) else {}))
     ISZ = 4 if out_float32 else 2          # bytes per output sample
     out = F.get("/out/x.bin")
     if not ctx.oblige("output_file_exists", out is not None and bool(out.exists)):
@@ -382,6 +391,8 @@ def cases(tier):
                                                                      "max_batches": 4, "ns_min": 1024, "stale": True}, timeout_s=3400, max_paths=400))
     cs.append(Case("destripe_P1_scalar_wrot", "case_destripe", {"nproc": 1, "order": None, "ns2add": 0, "reject": True, "k_filter": True,
                                                                "max_batches": 4, "ns_min": 1024, "wrot_scalar": True, "out_float32": True}, timeout_s=3400, max_paths=400))
+    cs.append(Case("destripe_P1_matrix_wrot_mixed_gains", "case_destripe", {"nproc": 1, "order": None, "ns2add": 0, "reject": True, "k_filter": True,
+                                                                           "max_batches": 3, "ns_min": 1024, "wrot_matrix": True, "out_float32": True}, timeout_s=3400, max_paths=400))
     cs.append(Case("destripe_P2_float32_output", "case_destripe", {"nproc": 2, "order": None, "ns2add": 0, "reject": True, "k_filter": True,
                                                                    "max_batches": 6, "ns_min": 8192, "out_float32": True}, timeout_s=3400, max_paths=400))
     cs.append(Case("destripe_P2_pad_car_noreject", "case_destripe", {"nproc": 2, "order": [1, 0], "ns2add": 3, "reject": False, "k_filter": False,
@@ -421,7 +432,9 @@ rs = np.random.default_rng(0)
 data = (rs.normal(size=(ns, nc)) * 40).astype(np.int16)
 data[ns // 3: ns // 3 + 50, :nsites] = 30000          # a saturated stretch
 data[:, -1] = rs.integers(0, 65535, ns).astype(np.uint16).astype(np.int16)
-txt = sglx.imec_meta_text('3B2', [(0, i % 2, i // 2) for i in range(nsites)], gains=[(500, 250)] * nsites, ns=format(ns / 30000.0, '.12f'), fs_hz='30000', file_size=ns * nc * 2)
+wrot_matrix = {bool(params.get('wrot_matrix'))}
+gains = [[(500, 250), (250, 125), (1000, 500)][i % 3] for i in range(nsites)] if wrot_matrix else [(500, 250)] * nsites
+txt = sglx.imec_meta_text('3B2', [(0, i % 2, i // 2) for i in range(nsites)], gains=gains, ns=format(ns / 30000.0, '.12f'), fs_hz='30000', file_size=ns * nc * 2)
 (d / 'x.imec0.ap.meta').write_text(txt); data.tofile(d / 'x.imec0.ap.bin')
 labels = np.zeros(nsites); labels[-3:] = 3; labels[5] = 1
 v.detect_bad_channels_cbin = lambda sr, **k: labels
@@ -450,6 +463,18 @@ if append:
     both = np.fromfile(o / 'x.bin', dtype=np.int16)
     if both.size != 2 * first.size or not np.array_equal(both[:first.size], first) or not np.array_equal(both[first.size:], first):
         reproduced(f'append mode does not concatenate runs: {{both.size // nc}} rows after two runs of {{first.size // nc}}, first part intact={{np.array_equal(both[:first.size], first)}}')
+    not_reproduced()
+if wrot_matrix:
+    # whitening = a matrix applied to the normalised output: the run with the matrix equals the run without, times the matrix
+    base, _ = run(P)
+    W = np.eye(nsites) + 0.25 * np.eye(nsites, k=1) + 0.125 * np.eye(nsites, k=-2)
+    wrot = W
+    got, _ = run(P)
+    base = base.reshape(-1, nc).astype(float); got = got.reshape(-1, nc).astype(float)
+    want = base[:, :nsites] @ W
+    err = np.max(np.abs(got[:, :nsites] - want)) / max(1e-12, np.max(np.abs(want)))
+    print('relative error', err)
+    if err > 1e-4: reproduced(f'output with a whitening matrix differs from (output without) @ matrix by {{err:.3g}} (relative) on a probe with mixed gains')
     not_reproduced()
 try:
     a, o = run(P)
